@@ -2,6 +2,7 @@ import BM.Proofs.Step
 import BM.Proofs.SkipText
 import BM.Props.C09
 import BM.Proofs.ProvC
+import BM.Proofs.SkipTextSp
 /-
   C08: content of disallowed invisible-content elements is removed.  Proved (event level):
   * while `skipElementContent` is set nothing but the space of AddSpaceWhenStrippingTag is
@@ -124,5 +125,47 @@ theorem C08_bytesC (p : Policy) (hp : PlainC p.ensureInit) (hs : p.ensureInit.ad
     rw [hbytes, flatten_map_render]
   rw [hb, tokenize_renderAllC toks hseg, textOf_coalesce, textOf_map_reread]
   simpa using htext
+
+/-! ### with AddSpaceWhenStrippingTag -/
+
+/-- **C08 (event level), AddSpaceWhenStrippingTag or not**: for every policy without AllowUnsafe and every
+    well-nested input without script/style tags, the text the loop writes is — space characters aside,
+    since every removed tag may have left one — exactly the input's text outside every disallowed
+    skip-content element -/
+theorem C08_events_spaces (p : Policy) (hu : p.ensureInit.allowUnsafe = false)
+    (input : Bytes) (hwn : wellNested (tokenize input) = true)
+    (hnos : ∀ t ∈ tokenize input, isTag t = true → isScriptOrStyle t.data = false) :
+    ∃ ws toks, p.ensureInit.run {} (tokenize input) = (ws, false) ∧
+      RunWrites p.ensureInit (tokenize input) ws toks ∧
+      noSp (textOf toks) = noSp (visibleTextAux p.ensureInit 0 [] (tokenize input)) :=
+  nest_text_sp p.ensureInit hu (tokenize input) [] {} (abs_init _) rfl (by simp)
+    (tokenizeAux_nameOK _ _ _) hnos hwn
+
+/-- **C08 (byte level), AddSpaceWhenStrippingTag or not, comments allowed or not**: the text an HTML
+    tokenizer reads from the returned bytes is, space characters aside, the input's text outside every
+    disallowed skip-content element — nothing inside one appears, everything outside does -/
+theorem C08_bytes_spaces (p : Policy) (hp : PlainC p.ensureInit)
+    (input : Bytes) (hwn : wellNested (tokenize input) = true)
+    (hnos : ∀ t ∈ tokenize input, isTag t = true → isScriptOrStyle t.data = false) :
+    noSp (textOf (tokenize (p.sanitizeCore input))) = noSp (visibleTextAux p.ensureInit 0 [] (tokenize input)) := by
+  obtain ⟨ws, toks, hrun, ⟨hbytes, hprov⟩, htext⟩ := C08_events_spaces p hp.noUnsafe input hwn hnos
+  have hseg : ∀ k ∈ toks, SegOKC k := by
+    intro k hk
+    obtain ⟨t, ht, hpr⟩ := hprov k hk
+    exact prov_segOKC hp (tokenize_wf input t ht) hpr
+  have hb : p.sanitizeCore input = renderAll toks := by
+    unfold Policy.sanitizeCore Policy.sanitizeTokens
+    rw [hrun]
+    simp only
+    unfold TokBytes at hbytes
+    rw [hbytes, flatten_map_render]
+  rw [hb, tokenize_renderAllC toks hseg, textOf_coalesce, textOf_map_reread]
+  simpa using htext
+
+/-- non-vacuity: spaces are added, hidden text stays hidden -/
+example :
+    let p : Policy := { initialized := true, addSpaces := true, elsAndAttrs := [(b!"b", [])],
+                        setOfElementsAllowedWithoutAttrs := [b!"b"], setOfElementsToSkipContent := [b!"object"] }
+    p.sanitizeCore b!"a<object>x<b>y</b></object>c<i>d</i>" = b!"a  c d " := by decide
 
 end BM.Props
